@@ -15,6 +15,7 @@ out = ["# Seeded changes", "",
        "| id | change | needs, to manifest | first run of the check | strengthening | caught by |",
        "|---|---|---|---|---|---|"]
 missed = 0
+uncaught = [n for n, d in rows if d.get('uncaught')]
 for name, d in rows:
     first = (d.get('check_result_before') or d.get('check_result_first')) or d.get('check_result', '')
     if (d.get('check_result_before') or d.get('check_result_first')):
@@ -26,6 +27,6 @@ for name, d in rows:
         strengthening += " Aftermath: " + d['aftermath']
     esc = lambda x: str(x).replace('|', '\\|').replace('\n', ' ')
     out.append("| %s | %s | %s | %s | %s | %s |" % (name, esc(d.get('change', '')), esc(d.get('needs_to_manifest', '')), esc(first), esc(strengthening), ", ".join(d.get('caught_by', []))))
-out += ["", "%d changes; %d caught by the check as it was, %d missed at first and caught after the check was strengthened (the strengthening is generic - new input classes, delivery modes, fault points - not a test for the particular change)." % (len(rows), len(rows) - missed, missed), ""]
+out += ["", "%d changes; %d caught by the check as it was, %d missed at first and caught after the check was strengthened (the strengthening is generic - new input classes, delivery modes, fault points - not a test for the particular change), %d still uncaught%s." % (len(rows), len(rows) - missed, missed - len(uncaught), len(uncaught), (" (" + ", ".join(uncaught) + ")") if uncaught else ""), ""]
 open('/verif/seeded/README.md', 'w').write("\n".join(out))
 print(len(rows), "rows;", missed, "missed at first")
